@@ -9,3 +9,5 @@ pub mod dns_script;
 pub mod wsutil;
 pub mod remote;
 pub mod remote_actor;
+pub mod dns_stagger;
+pub mod dns_wire;
